@@ -10,6 +10,14 @@ CONSTANTS
   CoverFaultProofs = {"correct"}
   DonorIdfs = {"absent"}
   ForgedIdfs = {"absent"}
+  RSALogs = {"L2"}
+  HashCodes = {"none", "md5", "sha1", "sha224", "sha256", "sha384", "sha512", "h7", "h8", "hx"}
+  SigAlgs = {"anon", "rsa", "dsa", "ecdsa", "s7", "s8", "sx"}
+  HdrIdfs = {"absent"}
+  HdrLogs = {"L1", "L2"}
+  HdrBuildSizes = {2}
+  HdrProofs = {"correct"}
+  HdrTofuFull = FALSE
   HistLogs = {"L1", "L2"}
   HistProofs = {"correct", "empty", "padded"}
   HistFaults = {"ctx", "commit"}
